@@ -13,7 +13,7 @@ LEVEL_TEXT = ("TaskTree.tla writes the rules twice — as set-based definitions 
               "bounds that both raise exactly the same flags (plus reachability controls for the rules). A recording tracing.Tracer is "
               "then attached with tracing.CollectTrace to EVERY component and connection, and the library's incoming/outgoing buffer "
               "tracers to every port, of seeded real assemblies: ideal / DRAM / banked memory, write-back and write-through (all three "
-              "policies) caches over memory, L1+L2, a ROB + address translator + TLB + MMU + L1 + L2 stack, meshes and other networks "
+              "policies) caches over memory, L1+L2, a ROB + address translator + TLB + MMU + L1 + L2 stack, a ROB over a cache over slow memory (out-of-order answers, answered-but-unretired transactions at a reset), a requester that stops draining its port for a while, meshes and other networks "
               "(tracer attached per component and via the connector's WithVisTracer); control histories pause/drain/flush/invalidate/"
               "enable single components and reset the whole stack top-down or bottom-up in the middle of traffic. TLC runs the monitor "
               "over each recorded stream and prints one CASE per rule failure.")
@@ -110,7 +110,7 @@ def selftest(ck, trace_path):
 def run(ck):
     quick = ck.tier == "quick"
     ck.cov["rule"] = ("(1) TaskTree.tla: monitor = statement on every chronological history up to MaxLen events (exhaustive) and on random longer "
-                      "ones (simulation), rule reachability controls. (2) seeded assemblies (kinds rotate: ideal, wb, wt, l1l2, vm, dram, banked, ...; "
+                      "ones (simulation), rule reachability controls. (2) seeded assemblies (kinds rotate: ideal, wb, wt, l1l2, vm, rob (reorder buffer over a cache over slow memory: answers overtake each other), dram, banked, ...; the requester sometimes stops retrieving for a while (full Top port); "
                       "control modes rotate: reset, none, soft, reset, mixed) and networks run on the serial engine with a recording tracer on every "
                       "component and buffer tracers on every port; TLC runs the monitor over each stream. Counted per run; non-trivial = a run at rest "
                       "with at least 3 task kinds and 200 events.")
@@ -119,7 +119,7 @@ def run(ck):
                        "the requester is the harness's own component; it emits no tasks of its own (buffer tasks at its ports come from the library's hooks)"]
     if not os.environ.get("VERIF_SKIP_MODEL"):   # development aid (sensitivity runs): the model part does not depend on /repo
         model(ck)
-    stacks, nets, ops, msgs, per = (10, 2, 36, 24, 4) if quick else (50, 10, 110, 60, 5)
+    stacks, nets, ops, msgs, per = (12, 2, 32, 24, 4) if quick else (48, 8, 110, 60, 6)
     binary = ck.binary("nettrace")
     d = core.scratch("c32-")
     traces, outs = [], []
